@@ -443,7 +443,9 @@ func (s *sess) scanCtl() {
 	for _, e := range ctl[s.ctlSeen:] {
 		if !strings.HasSuffix(e, "!") && (e[0] == 'A' || e[0] == 'M') {
 			s.armed = true
-			s.edge = s.readable()
+			if s.mode != "lt" || e[0] == 'A' { // level-triggered: a MOD (write interest) changes nothing about readiness reports
+				s.edge = s.readable()
+			}
 		}
 	}
 	s.ctlSeen = len(ctl)
@@ -469,6 +471,13 @@ func (s *sess) q() int {
 func (s *sess) readable() bool { return s.q() > 0 || s.eof || s.rerr }
 
 // pollFlags: what the kernel reports now under the mode's readiness semantics (0 = nothing due).
+// rdhupAsked: the kernel reports EPOLLRDHUP only if the current registration asks for it (EPOLLERR and EPOLLHUP are
+// reported regardless)
+func (s *sess) rdhupAsked() bool {
+	_, _, events := s.v.CtlLog()
+	return events&evRdhup != 0
+}
+
 func (s *sess) pollFlags() uint32 {
 	due := false
 	switch s.mode {
@@ -489,7 +498,7 @@ func (s *sess) pollFlags() uint32 {
 		return 0
 	}
 	fl := uint32(evIn)
-	if s.eof {
+	if s.eof && s.rdhupAsked() {
 		fl |= evRdhup
 	}
 	if s.rerr {
@@ -518,7 +527,7 @@ func (s *sess) eventFlags(want uint32) uint32 {
 	if s.q() > 0 || s.eof { // the kernel reports the whole ready mask: IN whenever something is readable
 		fl |= evIn
 	}
-	if s.eof && fl&evIn != 0 {
+	if s.eof && fl&evIn != 0 && s.rdhupAsked() {
 		fl |= evRdhup
 	}
 	if s.rerr {
@@ -1111,6 +1120,24 @@ func exec(e *lp.Exec) {
 				continue
 			}
 			what := s.deliver(e, fl, hold)
+			if s.mode == "lt" && fl&evIn != 0 && s.eof && !s.rerr && s.q() == 0 {
+				// level-triggered: a FIN that was reported and did not close the conn stays readable — the kernel reports
+				// it again at once, and again: show it
+				if cl, _ := s.closeState(); !cl {
+					_, _, r0, _ := s.v.ReadSide()
+					n := 0
+					for ; n < 3; n++ {
+						if fl2 := s.pollFlags(); fl2 != 0 {
+							s.deliver(e, fl2, false)
+						}
+					}
+					_, _, r1, _ := s.v.ReadSide()
+					if cl, _ := s.closeState(); !cl {
+						_, _, events := s.v.CtlLog()
+						e.Oracle("c02-spin", "level-triggered: the peer's FIN is reported as readable, read returns 0 and the conn stays open: %d further reports, %d further read calls on an empty queue, still open — the poller spins for ever (interest set %x: EPOLLRDHUP asked for = %v) typ=%s", n, r1-r0, events, s.rdhupAsked(), s.typ)
+					}
+				}
+			}
 			s.state(e, what)
 			fmt.Fprintf(&key, "e%x,", fl)
 			nontrivial = true
@@ -1169,6 +1196,29 @@ func exec(e *lp.Exec) {
 			}
 			s.state(e, "drain")
 			key.WriteString("D,")
+		case "backlog":
+			// backlog <n>: our side writes n bytes the kernel does not take (the peer is not reading): write backlog, the
+			// writing event is armed (level-triggered: EPOLL_CTL_MOD; plain edge-triggered: already in the interest set)
+			if len(f) != 2 || s.typ == "udp" || s.mode == "os" {
+				e.P("bad-op")
+				continue
+			}
+			if closed {
+				s.state(e, "nop")
+				continue
+			}
+			if s.taskState() == "read" {
+				s.state(e, "busy") // the parked task sits inside the conn mutex
+				continue
+			}
+			{
+				n, _ := strconv.Atoi(f[1])
+				s.v.SetScript(nil) // exhausted script: EAGAIN
+				_, _ = s.c.Write(lp.Pattern(n, 5))
+				s.scanCtl()
+				s.state(e, "backlog")
+				key.WriteString("bl,")
+			}
 		case "xadd":
 			// xadd <k>: a further stream conn
 			k, err := strconv.Atoi(f[len(f)-1])
@@ -1379,6 +1429,9 @@ func gen(g *lp.Gen) {
 					sideCase = false
 				}
 				sideStage++
+			}
+			if typ != "udp" && mode != "os" && g.Chance(1, 10) {
+				g.P("backlog %d", 1+g.Intn(100))
 			}
 			r := g.Intn(100)
 			switch {
